@@ -214,4 +214,23 @@ VARIANTS = [
     {"name": "P R1/R2 parse result accessed by index", "expect": "silent", "edits": [
         {"file": SP, "old": "                remote_addr, data = socks_parsed\n",
          "new": "                remote_addr = socks_parsed[0]\n                data = socks_parsed[1]\n"}]},
+    # ------------------------------------------------------------------ round 4
+    {"name": "R3 ban verdict consults something besides the flavor", "file": "hippolyzer/lib/base/message/message_dot_xml.py",
+     "expect": "C06.R3", "old": "                return False\n", "new": "                return msg_name.endswith(\"Request\")\n"},
+    {"name": "P R3 ban verdict through dict.get and one comparison", "file": "hippolyzer/lib/base/message/message_dot_xml.py",
+     "expect": "silent", "old": "        if msg_name in self.messages:\n            if self.messages[msg_name]['flavor'] == 'template':\n                return True\n            else:\n                return False\n        else:\n            return True\n",
+     "new": "        details = self.messages.get(msg_name)\n        if details is None:\n            return True\n"
+            "        return details['flavor'] == 'template'\n"},
+    {"name": "P R2 far_addr as a conditional expression", "file": BT, "expect": "silent",
+     "old": "        if self.outgoing:\n            return self.dst_addr\n        return self.src_addr\n",
+     "new": "        return self.src_addr if self.incoming else self.dst_addr\n"},
+    {"name": "R2 far_addr conditional expression with the roles swapped", "file": BT, "expect": "C06.R2",
+     "old": "        if self.outgoing:\n            return self.dst_addr\n        return self.src_addr\n",
+     "new": "        return self.src_addr if self.outgoing else self.dst_addr\n"},
+    {"name": "P R3 claim_session through next(generator)", "file": SE, "expect": "silent",
+     "old": "        for session in self.sessions:\n            if session.pending and session.id == session_id:\n"
+            "                logging.info(\"Claimed %r\" % session)\n                session.pending = False\n"
+            "                return session\n        return None\n",
+     "new": "        found = next((s for s in self.sessions if s.id == session_id and s.pending), None)\n"
+            "        if found is not None:\n            found.pending = False\n        return found\n"},
 ]
